@@ -73,6 +73,16 @@ AXIOMS += [
      "by intro a x h; exact Real.rpow_pos_of_pos h x"),
 ]
 
+AXIOMS += [
+    ("explog", "exp_log", ("forall", V("x:R"), ("=>", ("<", ("num", 0), "x"), ("=", app("Exp", app("Log", "x")), "x"))),
+     "by intro x h; exact Real.exp_log h"),
+    ("explog", "log_exp", ("forall", V("x:R"), ("=", app("Log", app("Exp", "x")), "x")),
+     "by intro x; exact Real.log_exp x"),
+    ("explog", "exp_pos", ("forall", V("x:R"), ("<", ("num", 0), app("Exp", "x"))),
+     "by intro x; exact Real.exp_pos x"),
+]
+
+
 def forall_k(body):
     return ("forall", V("k:K"), body)
 
